@@ -25,7 +25,7 @@ Record retain_post (m : mem) (own : bufid -> N) (r : repr) (pred : nat -> option
             text_of m' r' = retain_text (text_of m r) pred
             /\ res = (if retain_done (text_of m r) pred then ROk tt else RPanic PUser);
   rt_fail : res = RErr -> r' = r /\ heap m' = heap m;
-  rt_excl : exclusive (heap m) r ->
+  rt_excl : xcl m r ->
             res <> RErr /\ nreq m' = nreq m /\ (forall b, names r' b = names r b) /\ is_heap r' = is_heap r;
 }.
 
